@@ -215,6 +215,7 @@ def access_calls(ctx, body):
             for c in walk_expr(e):
                 if c.kind == "call" and c[1] in ("std::ops::Index::index", "daggy::Dag::<N, E, Ix>::node_weight"):
                     idv = strip_refs(c[2][1])
+                    break       # outermost lookup (the id expression may itself index the id list)
             out[bb] = (ACCESS_FNS[p], idv, e)
     return out
 
@@ -845,7 +846,26 @@ def R4(ctx, rule="R4"):
                 x = body
                 ok = False
                 why = "not inside an iteration over raw_edges()/raw_nodes()"
-                if x.kind == "closure":
+                lr_ = loop_region(ctx, body, bb)
+                if lr_ is not None and lr_["driver"] == "sync":
+                    # `for edge in graph.raw_edges()` / `for _ in 0..graph.node_count()`
+                    chain = iterator_chain(ctx, body, lr_["iter_expr"]) if lr_.get("iter_expr") is not None else []
+                    names = [c[0] for c in chain]
+                    srcs = [c for c in names if c in ("daggy::Dag::<N, E, Ix>::raw_edges", "daggy::Dag::<N, E, Ix>::raw_nodes")]
+                    sel = [c for c in names if c in SELECTIVE_ITER]
+                    rng = [c for c in chain if c[0] == "leaf:agg" and c[2][2] == "std::ops::Range"]
+                    full_range = False
+                    if rng and "add_node" in p:
+                        r_ = rng[0][2]
+                        full_range = is_const(strip_refs(r_[4][0]), 0) and strip_refs(r_[4][1]).kind == "call" and strip_refs(r_[4][1])[1] in NODE_COUNT_FNS
+                    exits_ok = True
+                    for (xb, sb_) in lr_["early_exits"]:
+                        exits_ok = False
+                    if (srcs or full_range) and not sel and exits_ok:
+                        ok = True
+                    else:
+                        why = "loop over %s%s" % (names, "" if exits_ok else " with an early exit")
+                elif x.kind == "closure":
                     uses = fl.closure_uses(x)
                     if len(uses) == 1:
                         pb, ubb, ut, ai = uses[0]
@@ -860,6 +880,8 @@ def R4(ctx, rule="R4"):
                 # unconditional within the closure except for `?` on a previous add_edge
                 gs = []
                 for sb, de, vals in cond_guards(body, bb):
+                    if lr_ is not None and lr_.get("switch_bb") == sb:
+                        continue
                     e = strip_refs(de)
                     srcs2 = sources_of_expr(ctx, body, e[1] if e.kind == "discr" else e, mode="taint")
                     if any(s.kind == "alloc" and s[4] in (ADD_EDGE,) for s in srcs2):
@@ -1056,6 +1078,24 @@ def P1(ctx, rule="P1"):
                     ok = bool(srcs) and all(s2.kind == "alloc" and s2[4] == "std::iter::Iterator::enumerate" and "$item" in s2[3] for s2 in srcs)
                     if not ok:
                         ok = bool(srcs) and all(s2.kind == "const" and str(s2[1]) == "0" for s2 in srcs)
+                    if not ok:
+                        # a position produced by iterating `0..list.len()` of the very list that is sliced
+                        st_e = strip_refs(rng[4][0])
+                        ip = loop_item_path(st_e)
+                        rr = None
+                        if ip is not None and ip[1] == ():
+                            lr2 = None
+                            for (src_, hdr_) in b.back_edges():
+                                pass
+                            ch2 = iterator_chain(ctx, b, strip_refs(b_next_iter(b, ip[0])))
+                            rr = [c for c in ch2 if c[0] == "leaf:agg" and c[2][2] == "std::ops::Range"]
+                            sel2 = [c[0] for c in ch2 if c[0] in SELECTIVE_ITER]
+                            if rr and not sel2:
+                                lo_, hi_ = strip_refs(rr[0][2][4][0]), strip_refs(rr[0][2][4][1])
+                                if is_const(lo_, 0) and hi_.kind == "call" and hi_[1].split("::")[-1] == "len" and hi_[2]:
+                                    l1 = {(x[1], x[2]) for x in sources_of_expr(ctx, b, hi_[2][0]) if x.kind == "alloc" and not x[3]}
+                                    l2 = {(x[1], x[2]) for x in sources_of_expr(ctx, b, strip_refs(expr_operand(b, t["args"][0]))) if x.kind == "alloc" and not x[3]}
+                                    ok = bool(l1) and l1 == l2
                     why = "start of `%s` comes from %s" % (fmt_expr(rng, b), [fmt_src(x) for x in srcs][:3])
                 ctx.check(ok, rule, "slice|%s" % short(b.id), where,
                           "slice taken as list[i..] with i an index produced by enumerate(): always within bounds",
@@ -1297,6 +1337,10 @@ def D2_loops(ctx, rule, cm, lr_in, lr_out):
     ochain = iterator_chain(ctx, b, lr_out["iter_expr"])
     names = [c[0] for c in ochain]
     n_rev = names.count("std::iter::Iterator::rev")
+    rng_leaf = [c for c in ochain if c[0] == "leaf:agg" and c[2][2] == "std::ops::Range"]
+    if rng_leaf and "std::iter::Iterator::enumerate" not in names:
+        D2_index_outer(ctx, rule, cm, lr_in, lr_out, rng_leaf[0], n_rev, outer_idx, list_inner)
+        return
     ctx.check("std::iter::Iterator::enumerate" in names and n_rev % 2 == 1, rule, "outer-descending", m.where(b, lr_out["next_bb"]),
               "the outer loop walks the ascending-sorted list from its end (highest rank first): when an element is examined, "
               "every Data edge among later elements already exists, so has_path_connecting suppresses every implied ordering",
@@ -1312,6 +1356,46 @@ def D2_loops(ctx, rule, cm, lr_in, lr_out):
               "the Data edge goes from the outer (earlier-sorted) element to an element at a later position of the same sorted list",
               "edge direction / list identity not established: index from enumerate: %s, `from` is outer element: %s, same list: %s, `to` is inner element: %s" % (
                   idx_ok, a_ok, same_list, b_ok))
+
+
+def D2_index_outer(ctx, rule, cm, lr_in, lr_out, rng_leaf, n_rev, outer_idx, list_inner, frame=None, a_e=None, b_e=None, outer_item=None, inner_item_ok=None):
+    """outer iteration `for index in (0..list.len()).rev()` with `a = list[index]`, inner over `list[index..]`"""
+    m = ctx.model
+    b, bb, t, p = cm["site"]
+    fb_ = frame or b
+    where = m.where(b, bb)
+    r_ = rng_leaf[2]
+    lo, hi = strip_refs(r_[4][0]), strip_refs(r_[4][1])
+    len_of = None
+    if hi.kind == "call" and hi[1].split("::")[-1] == "len" and hi[2]:
+        len_of = sources_of_expr(ctx, rng_leaf[1], hi[2][0])
+    listk = {(s[1], s[2]) for s in list_inner if s.kind == "alloc" and not s[3]}
+    lenk = {(s[1], s[2]) for s in (len_of or ()) if s.kind == "alloc" and not s[3]}
+    full = is_const(lo, 0) and bool(listk) and listk == lenk
+    ctx.check(full and n_rev % 2 == 1, rule, "outer-descending", m.where(fb_, lr_out["next_bb"]) if lr_out else where,
+              "the outer loop walks the positions 0..len of the ascending-sorted list from the end (highest rank first): when an element is examined, "
+              "every Data edge among later elements already exists, so has_path_connecting suppresses every implied ordering",
+              "the outer loop is not `(0..list.len()).rev()` over the sorted list (range %s..%s, reversed %d times)" % (fmt_expr(lo, fb_), fmt_expr(hi, fb_), n_rev))
+    a_e = a_e if a_e is not None else cm["a"]
+    b_e = b_e if b_e is not None else cm["b"]
+    # index of the inner range = the outer position; `from` = list[outer position]; `to` = inner item
+    if outer_item is None:
+        ii = loop_item_path(outer_idx)
+        idx_ok = ii == (lr_out["next_bb"], ())
+        era = elem_read(a_e)
+        a_ok = era is not None and loop_item_path(era[1]) == (lr_out["next_bb"], ()) and \
+            {(s[1], s[2]) for s in sources_of_expr(ctx, fb_, era[0]) if s.kind == "alloc" and not s[3]} == listk
+        ib = loop_item_path(b_e)
+        b_ok = ib == (lr_in["next_bb"], ())
+    else:
+        idx_ok = strip_refs(outer_idx) == outer_item
+        era = elem_read(a_e)
+        a_ok = era is not None and strip_refs(era[1]) == outer_item and \
+            {(s[1], s[2]) for s in sources_of_expr(ctx, fb_, era[0]) if s.kind == "alloc" and not s[3]} == listk
+        b_ok = bool(inner_item_ok)
+    ctx.check(idx_ok and a_ok and b_ok, rule, "direction", where,
+              "the Data edge goes from list[position] to an element at a later position of the same sorted list",
+              "edge direction / list identity not established: inner range starts at the outer position: %s, `from` is list[position]: %s, `to` is inner element: %s" % (idx_ok, a_ok, b_ok))
 
 
 NONDET_PAT = ("std::time::", "std::thread::", "rand::", "std::env::", "std::process::id", "std::ptr::addr", "getrandom",
@@ -1808,6 +1892,42 @@ def C13_rules(ctx, rule="K"):
                     seeds_ok = has_parents and not has_children and pol == 1
                     why = "seed predicate uses parents=%s children=%s; element kept when the parent walk is %s" % (
                         has_parents, has_children, {1: "empty", -1: "NON-empty", None: "?"}[pol])
+        if not seeds_ok and not colls:
+            # the queue starts empty and is filled by a loop over all nodes that pushes exactly the parent-less ones
+            news = [s_ for s_ in q if s_.kind == "alloc" and s_[1] == rc.id and not s_[3] and s_[4].split("::")[-1] in ("new", "with_capacity", "default")]
+            pre = []
+            for pbb, pt in rc.calls():
+                if callee_path(pt) in PUSH_FNS and pbb not in loop and set(fl.sources_operand(rc, pt["args"][0])) & set(q) and rc.dominates(pbb, hdr) is False:
+                    pre.append((pbb, pt))
+            pre = [(pbb, pt) for pbb, pt in pre if hdr in rc.reachable_fwd(pbb) or True]
+            if len(news) == 1 and len(pre) == 1:
+                pbb, pt = pre[0]
+                lrp = loop_region(ctx, rc, pbb)
+                if lrp is not None and not lrp["early_exits"]:
+                    chain = iterator_chain(ctx, rc, lrp["iter_expr"]) if lrp.get("iter_expr") is not None else []
+                    names = [c[0] for c in chain]
+                    all_nodes = any(n_ in ALL_NODE_SOURCES or n_.endswith("::node_indices") for n_ in names) and not [n_ for n_ in names if n_ in SELECTIVE_ITER]
+                    pushed = strip_refs(expr_operand(rc, pt["args"][1]))
+                    ip = loop_item_path(pushed)
+                    item_ok = ip is not None and ip[0] == lrp["next_bb"]
+                    pols = []
+                    others_g = []
+                    for sb, de, vals in cond_guards(rc, pbb):
+                        if sb == lrp.get("switch_bb"):
+                            continue
+                        pol = emptiness_polarity(ctx, rc, de)
+                        tt = "otherwise" in vals and "0" not in vals
+                        tf = "0" in vals and "otherwise" not in vals
+                        if pol is not None and (tt or tf):
+                            pols.append(pol if tt else -pol)
+                        else:
+                            others_g.append(fmt_expr(strip_refs(de), rc))
+                    bodies = [bx for g in cond_guards(rc, pbb) for c in walk_expr(strip_refs(g[1])) if c.kind == "call" and c[1] in fb.bodies for bx in m.reach_bodies(c[1])] + [rc]
+                    has_parents = any(callee_path(t2) == PARENTS for bx in bodies for _, t2 in bx.calls())
+                    has_children_pred = any(callee_path(t2) == CHILDREN for bx in bodies if bx.id != rc.id for _, t2 in bx.calls())
+                    seeds_ok = all_nodes and item_ok and pols == [1] and not others_g and has_parents and not has_children_pred
+                    why = "seeding loop: over all nodes %s, pushes the loop item %s, guard polarity %s, other guards %s, parents walk %s" % (
+                        all_nodes, item_ok, pols, others_g, has_parents)
         ctx.check(seeds_ok, rule + "2", "seeds", m.where(rc), "the work queue is seeded with exactly the nodes that have no parents", why)
     else:
         ctx.unverifiable(rule + "2", "seeds", where, "no worklist loop found in the rank calculation")
@@ -2043,6 +2163,13 @@ def subst_args(e, args):
         else:
             out.append(x)
     return E(tuple(out))
+
+
+def b_next_iter(body, next_bb):
+    """iterator expression stepped by the `next()` call at next_bb"""
+    from rules_sched import _resolve_iter_local
+    t = body.blocks[next_bb]["term"]
+    return _resolve_iter_local(body, expr_operand(body, t["args"][0]))
 
 
 def lift_expr(ctx, M, X, e, max_hops=4):
